@@ -75,6 +75,8 @@ pub struct Runner {
     rig: Box<dyn Rig>,
     opts: NutsOptions,
     pub nruns: u64,
+    /// leaves that may still be stored for this case (bounds the memory of one case; all explorations of a case share it)
+    pub leaves_left: usize,
 }
 
 impl Runner {
@@ -85,6 +87,7 @@ impl Runner {
             rig,
             opts: NutsOptions { maxdepth: c.maxdepth, ..NutsOptions::default() },
             nruns: 0,
+            leaves_left: 40_000,
         }
     }
 
@@ -181,6 +184,10 @@ fn explore(
     *budget -= 1;
     let r = rn.run(x0, v0, prefix).map_err(ExploreErr::Run)?;
     if r.ncalls <= prefix.len() {
+        if rn.leaves_left == 0 {
+            return Err(ExploreErr::TooLarge);
+        }
+        rn.leaves_left -= 1;
         out.push(Leaf { path: prefix.clone(), prob, run: r });
         return Ok(());
     }
@@ -532,7 +539,22 @@ fn case_strategy(max_dim: usize, maxdepth: std::ops::RangeInclusive<u64>) -> Box
                 any::<u64>(),
             )
         })
-        .prop_map(|(dens, trans, kind, eps, x0, v0, maxdepth, script_seed)| Case { dens, trans, kind, eps, x0, v0, maxdepth, script_seed })
+        .prop_map(|(dens, trans, kind, eps, x0, v0, maxdepth, script_seed)| {
+            // One case in eight: the ExactNormal integrator on the Gaussian it is exact for (standard normal, or independent
+            // coordinates with power-of-two scales matched by a diagonal transformation). The energy is then conserved to
+            // a few ulps, so sub-trees often carry bit-identical weights - the tie branches of the weight arithmetic.
+            if script_seed % 8 == 0 {
+                let d = x0.len();
+                let (dens, trans) = if script_seed % 16 == 0 {
+                    (DensSpec::DiagGauss { mean: vec![0.0; d], sigma: vec![1.0; d] }, TransSpec::Identity)
+                } else {
+                    let sigma: Vec<f64> = (0..d).map(|i| [0.5, 2.0, 4.0, 1.0, 0.25, 8.0][(i + (script_seed >> 5) as usize) % 6]).collect();
+                    (DensSpec::DiagGauss { mean: vec![0.0; d], sigma: sigma.clone() }, TransSpec::Diag { stds: sigma, mean: vec![0.0; d] })
+                };
+                return Case { dens, trans, kind: KineticEnergyKind::ExactNormal, eps, x0, v0, maxdepth, script_seed };
+            }
+            Case { dens, trans, kind, eps, x0, v0, maxdepth, script_seed }
+        })
         .boxed()
 }
 
@@ -549,7 +571,7 @@ impl Part for Exact {
             .into()
     }
     fn cases(&self, tier: Tier) -> usize {
-        tier.pick(768, 12_000)
+        tier.pick(768, 4_000)
     }
     fn batch_size(&self) -> usize {
         4
@@ -557,7 +579,7 @@ impl Part for Exact {
     fn strategy(&self, tier: Tier) -> BoxedStrategy<Case> {
         match tier {
             Tier::Quick => case_strategy(3, 1..=3),
-            Tier::Thorough => case_strategy(6, 1..=4),
+            Tier::Thorough => prop_oneof![5 => case_strategy(6, 1..=3), 1 => case_strategy(3, 4..=4)].boxed(),
         }
     }
     fn check(&self, c: &Case) -> Outcome {
@@ -710,7 +732,7 @@ impl Part for Deep {
             .into()
     }
     fn cases(&self, tier: Tier) -> usize {
-        tier.pick(8000, 300_000)
+        tier.pick(8000, 150_000)
     }
     fn batch_size(&self) -> usize {
         16
